@@ -5,6 +5,7 @@ Transformation pass to lift context expressions to the top-level.
 from ..analysis import PartialEval, PartialEvalInfo
 from ..ast.fpyast import *
 from ..ast.visitor import DefaultTransformVisitor, DefaultVisitor
+from ..number import REAL
 from ..utils import Gensym
 from .cursor import Edit, EditLog
 from .path import FuncBody
@@ -63,6 +64,21 @@ class _ContextFinder(DefaultVisitor):
         return super()._visit_expr(e, ctx)
 
 
+def _rounds_nowhere(e: Expr) -> bool:
+    """Is *e* a constructor call whose arguments are literals, names or foreign
+    values -- nothing an active rounding context could change?"""
+    match e:
+        case Var() | RationalVal() | BoolVal() | ForeignVal() | Attribute():
+            return True
+        case Call():
+            return (
+                all(_rounds_nowhere(a) for a in e.args)
+                and all(_rounds_nowhere(v) for _, v in e.kwargs)
+            )
+        case _:
+            return False
+
+
 class _ContextLifter(DefaultTransformVisitor):
     """
     Visitor to lift context expressions to the top-level.
@@ -92,7 +108,14 @@ class _ContextLifter(DefaultTransformVisitor):
         # prepend variable bindings for lifted context expressions
         stmts: list[Stmt] = []
         for name, expr in self.name_to_expr.items():
-            stmts.append(Assign(name, None, expr, expr.loc))
+            bind: Stmt = Assign(name, None, expr, expr.loc)
+            if not _rounds_nowhere(expr):
+                # in a `with` header the constructor's arguments are evaluated
+                # under `RealContext`; at the top of the function the caller's
+                # context would round them (`MPFloatContext(5 + 6)` under three
+                # digits is a 12-digit context)
+                bind = ContextStmt(UnderscoreId(), ForeignVal(REAL, None), StmtBlock([bind]), expr.loc)
+            stmts.append(bind)
         stmts.extend(func.body.stmts)
 
         # replace the function body with the new statements
